@@ -58,36 +58,35 @@ func (dc *agentConnection) receive(data []byte) {
 }
 
 func (dc *agentConnection) Read(b []byte) (int, error) {
-	dc.m.Lock()
-	if len(dc.buff) != 0 {
-		n := copy(b[:], dc.buff[0:])
-		dc.buff = dc.buff[n:]
-		dc.m.Unlock()
-		return n, nil
-	}
-	dc.m.Unlock()
-
 	after := noDeadline
 
 	if !dc.readTimeout.IsZero() {
 		after = time.After(time.Until(dc.readTimeout))
 	}
 
-	select {
-	case <-after:
-		return 0, ErrTimeout
-	case _, ok := <-dc.in:
-		if !ok {
-			log.Errorf("Error reading from channel, return EOF")
+	for {
+		dc.m.Lock()
+		if len(dc.buff) != 0 {
+			n := copy(b[:], dc.buff[0:])
+			dc.buff = dc.buff[n:]
+			dc.m.Unlock()
+			return n, nil
+		}
+		closed := dc.closed
+		dc.m.Unlock()
+
+		// everything received before Close has been handed out
+		if closed {
 			return 0, io.EOF
 		}
 
-		dc.m.Lock()
-		n := copy(b[:], dc.buff[0:])
-		dc.buff = dc.buff[n:]
-		dc.m.Unlock()
-
-		return n, nil
+		// in holds at most one pending wake-up (see receive); it is closed by Close.
+		// Either way look at the buffer again.
+		select {
+		case <-after:
+			return 0, ErrTimeout
+		case <-dc.in:
+		}
 	}
 }
 
